@@ -65,6 +65,9 @@ def run(cx):
     wp = cx.path("maplits_wrapped.cases.ndjson")
     vlib.write_ndjson(wp, wrapped)
     batches.append(("maplits-wrapped", wp))
+    # G: loops whose body changes the list / map they iterate (Grammar!IterMuts, MapMuts): what they visit is specified
+    _, imp = langlib.run_family(cx, lang, "itermuts", 0)
+    batches.append(("itermuts", imp))
     # V: random programs, literal-heavy
     rp = cx.path("rand.cases.ndjson")
     cx.run([lang, "gen", "-seed", str(cx.seed * 1000 + 5), "-n", str(n_rand), "-depth", "3", "-budget", "70",
